@@ -83,6 +83,22 @@ def judge(model, step, resp):
         if v != "Ok":
             probs.append(f"index_insert({req['key']!r}) of a record with an unusable integrity failed: {ev.brief(resp)}")
         return probs, v
+    if op == "index_insert" and step.get("raw_entry"):
+        # a raw index record with a usable integrity (possibly several hashes): it becomes the key's entry as given;
+        # nothing is stored, so reads depend on whether the content its strongest hash names is there
+        o = opts_of(req)
+        if v != "Ok":
+            probs.append(f"index_insert({req['key']!r}) failed: {ev.brief(resp)}")
+            return probs, v
+        hs = ref.sri_parse(o["sri"])
+        import base64 as _b64
+        norm = " ".join(f"{a}-{_b64.b64encode(raw).decode()}" for a, raw in hs)
+        model.root_exists = True
+        model.index[req["key"]] = {"key": req["key"], "integrity": norm, "time": int(o["time"]) if o.get("time") is not None else None,
+                                   "window": window(resp), "size": o.get("size", 0), "metadata": o.get("metadata"),
+                                   "raw_metadata": bytes.fromhex(o["raw_metadata"]) if o.get("raw_metadata") is not None else None}
+        model.buckets.add(req["key"])
+        return probs, v
     if op in ("remove", "remove_opts", "index_delete"):
         model.remove(req["key"])
         if v != "Ok":
